@@ -37,6 +37,7 @@ NON_RAISING = {
     "contextlib.AsyncExitStack.push_async_exit", "contextlib.AsyncExitStack.pop_all",
     "contextlib.ExitStack", "contextlib.ExitStack.callback",
     "anyio.Event", "anyio.Event.set", "anyio.CancelScope", "anyio.CancelScope.cancel", "anyio.create_task_group",
+    "anyio.move_on_after",
     "anyio.abc.TaskGroup.start_soon", "anyio.create_memory_object_stream",
     "weakref.ref", "weakref.WeakKeyDictionary", "time.time",
     "warnings.warn",  # raises only under a -W error filter: recorded as an assumption
@@ -57,6 +58,10 @@ MUTATING_METHODS = {
     "append", "extend", "insert", "remove", "pop", "clear", "update", "setdefault", "add", "discard",
     "popitem", "sort", "reverse", "__setitem__", "__delitem__", "appendleft", "popleft",
 }
+
+# context managers whose __exit__ adds no exception of its own (it may still let one from the
+# body through): a cancel scope absorbs its own cancellation, move_on_after likewise
+QUIET_EXIT_CMS = {"anyio.CancelScope", "anyio.move_on_after"}
 
 SPAWN_METHODS = {"start_soon", "start", "create_task", "gather", "ensure_future", "spawn"}
 
